@@ -532,6 +532,9 @@ class UTPM(Ring, RawAlgorithmsMixIn):
 
     def __pow__(self,r):
         if isinstance(r, UTPM):
+            if numpy.iscomplexobj(r.data) and not numpy.iscomplexobj(self.data):
+                # (the complex logarithm: the real one of a negative base is nan)
+                return UTPM.exp(UTPM.log(UTPM(self.data.astype(r.data.dtype)))*r)
             return UTPM.exp(UTPM.log(self)*r)
         else:
             x_data = self.data
